@@ -143,6 +143,13 @@ func init() {
 		Technique: "deductive verification: behavioural interface contract for IBinaryReader.Bytes over a ghost content view (proved for the memory and mmap back ends), io.Seeker semantics of Seek, position bookkeeping and sticky first error, fixed-width decoding == sum of content bytes, bit-exact BitmapReader/BitmapWriter contracts; VCs discharged by z3/cvc5",
 	})
 	registerProp(&PropSpec{
+		ID: "C20", Title: "Distinct parser instances are independent and safe to use concurrently",
+		Analyses: []string{"frame"},
+		NotDecided: []string{"interleavings are not explored: the frame argument (no write ever reaches shared memory) replaces a thread model, which the technique does not have"},
+		Technique: "frame (modifies) obligations on every function: interprocedural provenance fix-point over go/ssa classifying every written location as argument-, receiver-, fresh- or package-level-rooted; the property holds iff no function outside initialisers writes package-level-rooted memory",
+		LevelText: "A frame obligation per function of the eight packages (write set contains no package-level-rooted memory), one obligation that no package-level variable is written outside initialisers, and one that the library starts no goroutines and uses no unsafe. Decided by an interprocedural provenance analysis (a sound over-approximation of the write set), not by exploring schedules.",
+	})
+	registerProp(&PropSpec{
 		ID: "C10", Title: "JSON parser accepts every valid document and reproduces it",
 		Sel: []Sel{{Pattern: "json.Parser.*", Levels: "STF"}, {Pattern: "json.NewParser", Levels: "S"}},
 		NotDecided: []string{"every document accepted by encoding/json is accepted (needs induction over the JSON grammar against the iterative state machine)"},
